@@ -3,6 +3,7 @@
 import os, re, sys, glob
 repo = os.path.abspath(sys.argv[1] if len(sys.argv) > 1 else os.environ.get("VERIF_REPO", "/repo"))
 here = os.path.dirname(os.path.abspath(__file__))
+outdir = os.path.abspath(sys.argv[2]) if len(sys.argv) > 2 else here   # where go.mod / go.sum are written
 subs = ["", "infs", "incfs", "adapters/redis", "adapters/cassandra", "jsondb", "search", "ai"]
 reqs = {}
 def ver_key(v):
@@ -29,7 +30,7 @@ for s in subs:
     name = "github.com/sharedcode/sop" + ("/" + s if s else "")
     out.append(f"replace {name} => {os.path.join(repo, s) if s else repo}")
 new = "\n".join(out) + "\n"
-gm = os.path.join(here, "go.mod")
+gm = os.path.join(outdir, "go.mod")
 if not os.path.exists(gm) or open(gm).read() != new:
     open(gm, "w").write(new)
 sums = set()
@@ -37,7 +38,7 @@ for f in glob.glob(os.path.join(repo, "**", "go.sum"), recursive=True) + [os.pat
     if os.path.exists(f):
         sums.update(l for l in open(f) if l.strip())
 # rapid sums from module cache if present
-gs = os.path.join(here, "go.sum")
+gs = os.path.join(outdir, "go.sum")
 extra = os.path.join(here, "extra.sum")
 if os.path.exists(extra):
     sums.update(l for l in open(extra) if l.strip())
